@@ -103,6 +103,7 @@ func main() {
 	checkInts(ints)
 	checkStrs(strs)
 	checkContraMap(ints, strs)
+	checkContraMapIface()
 	checkFrom(ints, strs)
 	checkMonoid(ints, strs)
 }
